@@ -6,7 +6,7 @@
    from the current one at the PENDING properties (existentially, per tree); each walk marks every evaluator-driven leaf that reads
    its property (link invariant: every such leaf is subscribed there), after which the property is no longer pending. *)
 From KDB Require Import Util UtilProofs PropDefs PropFlags PropLink PropLinkBasics PropLinkOps PropLinkTheorems PropSim.
-From KDB Require PropAbs PropAbsProofs PropAbsLazy PropProofs PropReg PropGrow PropSimLazy.
+From KDB Require PropAbs PropAbsProofs PropAbsLazy PropProofs PropReg PropGrow PropSimLazy PropGrowMore.
 Module A := PropAbs.
 Module AP := PropAbsProofs.
 Module L := PropAbsLazy.
@@ -704,11 +704,34 @@ Section MixedLazy.
     intros rid b Hi. pose proof (HR id st rid b Hst Hi) as Hk. split; [exact (PropReg.bkey_lt0 _ _ _ Hk)|left; exact Hk].
   Qed.
 
+  (* Property::reset() *)
+  Lemma ML_reset fuel w p w' : ML w -> step1 fn rtl fuel w (PReset p) = (w', None) -> LSIMP w' /\ MS w' /\ NOACT w'.
+  Proof.
+    intros HML H. pose proof HML as (Hinv & Hna & HS & HM). cbn [step1] in H.
+    destruct (lookup (w_props w) p) as [pr|] eqn:Hp; [|discriminate H]. destruct (pr_updater pr) as [b|]; [|inversion H; subst w'; auto].
+    destruct (destroy_binding w b) as [w1 [ex|]] eqn:Hd; [discriminate H|].
+    destruct (destroy_binding_pinvg _ _ _ _ _ _ w b w1 Hinv (fun z => z) Hd) as (_ & Bb & _ & _ & P1 & _ & _ & _ & _ & Sl & _).
+    pose proof (PropGrowMore.destroy_binding_get_bind w b w1 None Hd) as G1.
+    assert (Gb : get_bind w1 b = None) by (unfold bview in Bb; destruct (get_bind w1 b); [discriminate Bb|reflexivity]).
+    destruct (lookup (w_props w1) p) as [pr1|] eqn:Hp1; [|discriminate H]. inversion H; subst w'. clear H.
+    set (w2 := set_props w1 (bind_key (w_props w1) p (prop_set_updater pr1 None))).
+    assert (E2 : forall y, envof w2 y = envof w y).
+    { intros y. unfold envof, w2; cbn [set_props w_props]. rewrite lookup_bind. destruct (Nat.eqb_spec y p) as [->|]; [|rewrite P1; reflexivity].
+      rewrite P1 in Hp1. rewrite Hp1. reflexivity. }
+    assert (G2 : forall c, get_bind w2 c = if Nat.eqb c b then None else get_bind w c).
+    { intros c. change (get_bind w2 c) with (get_bind w1 c). destruct (Nat.eqb_spec c b) as [->|Hne]; [exact Gb|exact (G1 c Hne)]. }
+    split; [|split].
+    - intros c x Hx He. rewrite G2 in Hx. destruct (Nat.eqb c b); [discriminate Hx|exact (HS c x Hx He)].
+    - intros c T (x & Hx & He & Ha). rewrite G2 in Hx. destruct (Nat.eqb c b); [discriminate Hx|].
+      apply (sound_ext (envof w2) (envof w)); [intros y; symmetry; apply E2|]. apply (HM c T). exists x. auto.
+    - intros t pos ser label act Hs. apply (Hna t pos ser label act). apply Sl. exact Hs.
+  Qed.
+
   (* ---- histories: new properties, assignments, reads, plain observers, evaluator objects, fresh properties bound immediately or
-     through an explicit evaluator, evaluateAll of explicit evaluators ---- *)
+     through an explicit evaluator, evaluateAll of explicit evaluators, reset() ---- *)
   Definition grow_op5 (w : world) (o : op) : Prop :=
     match o with
-    | PNew _ _ | PSet _ _ _ | PGet _ | PHasBinding _ | BevNew _ | BevCopy _ _ => True
+    | PNew _ _ | PSet _ _ _ | PGet _ | PHasBinding _ | BevNew _ | BevCopy _ _ | PReset _ => True
     | PObserve _ _ _ _ None => True
     | PBind p _ m => lookup (w_props w) p = None /\
                      match m with MImmediate => True | MEvaluator e0 => exists id, lookup (w_bevs w) e0 = Some id /\ id <> 0 end
@@ -736,6 +759,7 @@ Section MixedLazy.
       split; [exact Hinv'|]. split; [exact A3|]. split; assumption.
     - (* PBind *) destruct Ho as (Hp & Hmode). destruct (ML_bind_fresh fuel w p e m w' HML HNE Hp Hmode H) as (A1 & A2 & A3).
       split; [exact Hinv'|]. split; [exact A3|]. split; assumption.
+    - (* PReset *) destruct (ML_reset fuel w p w' HML H) as (A1 & A2 & A3). split; [exact Hinv'|]. split; [exact A3|]. split; assumption.
     - (* BevNew *) cbn [step1] in H. destruct (lookup (w_bevs w) e); [discriminate H|]. inversion H; subst w'. apply Same; reflexivity.
     - (* BevCopy *) cbn [step1] in H. destruct (lookup (w_bevs w) src); [|discriminate H]. destruct (lookup (w_bevs w) dst); [discriminate H|].
       inversion H; subst w'. apply Same; reflexivity.
